@@ -189,6 +189,9 @@ func routeR6(j job, ref *leader, worker int, st *stats) *viol {
 		_, err := applyEntry(db, e)
 		st.applied++
 		switch {
+		case err != nil && failed[e.off] && kv.IsInvalidRequestError(err):
+			st.skipped++
+			continue
 		case err != nil && failed[e.off]:
 			st.stuck++
 			return nil
